@@ -334,6 +334,7 @@ class PeerSelector:
         self.min_happiness = min_happiness
 
         self.existing_shares = {}
+        self.allocated_shares = {}
         self.peers = set()
         self.readonly_peers = set()
         self.bad_peers = set()
@@ -343,6 +344,13 @@ class PeerSelector:
             self.existing_shares[peerid].add(shnum)
         except KeyError:
             self.existing_shares[peerid] = set([shnum])
+
+    def add_peer_with_allocated_share(self, peerid, shnum):
+        """
+        This peer has granted us a bucket for this share during the current
+        upload: later plans should leave the share where it is.
+        """
+        self.allocated_shares.setdefault(peerid, set()).add(shnum)
 
     def add_peer(self, peerid):
         self.peers.add(peerid)
@@ -368,7 +376,11 @@ class PeerSelector:
 
     def get_share_placements(self):
         shares = set(range(self.total_shares))
-        self.happiness_mappings = share_placement(self.peers, self.readonly_peers, shares, self.existing_shares)
+        held_shares = dict((peerid, set(shnums)) for (peerid, shnums)
+                           in self.existing_shares.items())
+        for (peerid, shnums) in self.allocated_shares.items():
+            held_shares.setdefault(peerid, set()).update(shnums)
+        self.happiness_mappings = share_placement(self.peers, self.readonly_peers, shares, held_shares)
         self.happiness = calculate_happiness(self.happiness_mappings)
         GET_SHARE_PLACEMENTS.log(
             total_shares=self.total_shares,
@@ -800,6 +812,11 @@ class Tahoe2ServerSelector(log.PrefixingLogMixin):
                 shares_to_ask.add(shnum)
                 if shnum in self.homeless_shares:
                     self.homeless_shares.remove(shnum)
+        # a share that another server has already given us a bucket for
+        # (in an earlier round, under an earlier plan) stays there
+        for other in self.use_trackers:
+            if other is not tracker:
+                shares_to_ask -= set(other.buckets.keys())
 
         if self._status:
             self._status.set_status("Contacting Servers [%r] (first query),"
@@ -846,6 +863,9 @@ class Tahoe2ServerSelector(log.PrefixingLogMixin):
             # that peer. We just have to remember to use them.
             if allocated:
                 self.use_trackers.add(tracker)
+                for s in allocated:
+                    self.peer_selector.add_peer_with_allocated_share(
+                        tracker.get_serverid(), s)
                 progress = True
 
             if allocated or alreadygot:
